@@ -294,6 +294,10 @@ def main():
     run.notes["round_trips"] = total
     run.notes["diffuse_field_round_trips"] = diffuse_field(run, hvsrpy, wd, np.random.RandomState(run.seed))
     kwargs_roundtrip(run, hvsrpy, wd)
+    # ---- writing is read-only and reading yields an object of its own (spec/TraceResultHeap.tla)
+    import resultheap
+    resultheap.run_sessions(run, hvsrpy, "C12-result-heap", dict(new_trad=1, new_diffuse=1, assemble=2, update_range=3, reject=3, read_only=6, read=5),
+                            dict(write=6, statistics=1), 12 if run.quick else 120, 16, "result-heap")
     return run.finish(
         rule="every state of the exported HvsrObject graphs (traditional and 2-azimuth objects, reached by replaying the "
              "TLC transitions on real objects) written to file and read back: curves bit for bit, masks, range, peaks, "
